@@ -133,6 +133,86 @@ Definition act_entry (e : entry) (st : list block) : list (list block) :=
     end
   else [st].
 
+(* ---- the definition, line by line ----
+   Entries that name different physical lines do not interfere, so the log is
+   applied per original physical line number: the entries of line k, in log order,
+   are run on the block of line k; [new] must be the concatenation, line after
+   line, of one result per line (for a sorted file: in any order). *)
+
+(* the entries that name physical line k *)
+Definition line_log (k : N) (log : list entry) : list entry :=
+  filter (fun e => needs_line (snd e) && (fst e =? k)) log.
+
+(* all results of running the entries of one line on its block; [seen] = the
+   entries before this one: an entry that was printed before may be skipped *)
+Fixpoint run_block (seen log : list entry) (b : block) : list block :=
+  match log with
+  | [] => [b]
+  | e :: log' =>
+    let applied := flat_map (run_block (e :: seen) log') (act_block (snd e) b) in
+    if existsb (entry_eqb e) seen then applied ++ run_block (e :: seen) log' b else applied
+  end.
+
+Definition flat_block (b : block) : str := concat (b_above b) ++ b_text b ++ concat (b_below b).
+Definition flat_blocks (st : list block) : str := concat (map flat_block st).
+
+(* per physical line (numbered from k): the possible bytes of that line afterwards *)
+Fixpoint line_cands (k : N) (log : list entry) (lines : list str) : list (list str) :=
+  match lines with
+  | [] => []
+  | l :: ls => map flat_block (run_block [] (line_log k log) (Block [] l [])) :: line_cands (k + 1) log ls
+  end.
+
+(* a line action must name an existing line *)
+Definition entry_in_range (n : nat) (e : entry) : bool :=
+  negb (needs_line (snd e)) || ((1 <=? fst e) && (fst e <=? N.of_nat n)).
+
+(* s = one candidate of the first line ++ one of the second ++ ... *)
+Fixpoint match_lines (cands : list (list str)) (s : str) : bool :=
+  match cands with
+  | [] => is_nil s
+  | cs :: rest =>
+    existsb (fun c => match strip_prefix c s with
+                      | Some r => match_lines rest r
+                      | None => false
+                      end) cs
+  end.
+
+Fixpoint pick_each {A} (l : list A) : list (A * list A) :=
+  match l with
+  | [] => []
+  | x :: l' => (x, l') :: map (fun p => (fst p, x :: snd p)) (pick_each l')
+  end.
+
+(* the same in any order of the lines; a non-empty piece without terminator can
+   only be the end of the file *)
+Fixpoint match_perm (n : nat) (cands : list (list str)) (s : str) : bool :=
+  match cands with
+  | [] => is_nil s
+  | _ =>
+    match n with
+    | O => false
+    | S n' =>
+      existsb (fun p =>
+        existsb (fun c => match strip_prefix c s with
+                          | Some r => (is_nil c || ends_nl c || is_nil r) && match_perm n' (snd p) r
+                          | None => false
+                          end) (fst p)) (pick_each cands)
+    end
+  end.
+
+Definition has_sort (log : list entry) : bool :=
+  existsb (fun e => match snd e with ASort => true | _ => false end) log.
+
+Definition consistent (old : str) (log : list entry) (new : str) : bool :=
+  let lines := phys_lines old in
+  forallb (entry_in_range (length lines)) log &&
+  (let cands := line_cands 1 log lines in
+   if has_sort log then match_perm (length cands) cands new else match_lines cands new).
+
+(* ---- the same set of results, as whole-file states (used for histories with a
+   save in between, below) ---- *)
+
 (* run the log; [seen] = the entries before this one *)
 Fixpoint run_log (seen : list entry) (log : list entry) (st : list block) : list (list block) :=
   match log with
@@ -143,44 +223,6 @@ Fixpoint run_log (seen : list entry) (log : list entry) (st : list block) : list
     then applied ++ run_log (e :: seen) log' st   (* printed again: may be the same change *)
     else applied
   end.
-
-Definition flat_block (b : block) : str := concat (b_above b) ++ b_text b ++ concat (b_below b).
-Definition flat_blocks (st : list block) : str := concat (map flat_block st).
-
-(* is s a concatenation of all the given pieces, each used once, in some order? *)
-Fixpoint pick_each {A} (l : list A) : list (A * list A) :=
-  match l with
-  | [] => []
-  | x :: l' => (x, l') :: map (fun p => (fst p, x :: snd p)) (pick_each l')
-  end.
-
-(* a piece without terminator can only be the last one *)
-Fixpoint perm_concat (n : nat) (pieces : list str) (s : str) : bool :=
-  match pieces with
-  | [] => is_nil s
-  | _ =>
-    match n with
-    | O => false
-    | S n' =>
-      existsb (fun p => (ends_nl (fst p) || is_nil (snd p)) &&
-                        match strip_prefix (fst p) s with
-                        | Some r => perm_concat n' (snd p) r
-                        | None => false
-                        end) (pick_each pieces)
-    end
-  end.
-
-Definition has_sort (log : list entry) : bool :=
-  existsb (fun e => match snd e with ASort => true | _ => false end) log.
-
-Definition final_ok (sorted : bool) (new : str) (st : list block) : bool :=
-  if sorted
-  then let ps := filter (fun p => negb (is_nil p)) (map flat_block st) in
-       perm_concat (length ps) ps new
-  else str_eqb (flat_blocks st) new.
-
-Definition consistent (old : str) (log : list entry) (new : str) : bool :=
-  existsb (final_ok (has_sort log) new) (run_log [] log (init_blocks old)).
 
 (* The same with a bounded number of "save and load again" points: the file is
    written and read again between two log entries; the later entries then use
